@@ -492,14 +492,17 @@ def mech_documents(chk):
         for name, impl_list, model_list in (("extract_top_level", top, m["top"]), ("extract_from_schemas", sch, m["schemas"])):
             impl_c = [example_canon(e) for e in impl_list]
             model_c = [example_unwire(j) for j in model_list]
+            chk.case(f"documents:{name}", key=key, nontrivial=bool(impl_c))
             if len(impl_c) != len(model_c) or not all(same(a, b) for a, b in zip(impl_c, model_c)):
                 chk.disagreement(f"documents:{name}", {"doc": doc, "op": op.label}, model_c, impl_c)
         impl_combos = [combo_canon_real(c) for c in combos]
         model_combos = [combo_canon_model(c) for c in m["combos"]]
+        chk.case("documents:produce_combinations", key=key, nontrivial=len(impl_combos) > 1)
         if len(impl_combos) != len(model_combos) or not all(same(a, b) for a, b in zip(impl_combos, model_combos)):
             chk.disagreement("documents:produce_combinations", {"doc": doc, "op": op.label}, model_combos, impl_combos)
         impl_merged = [combo_canon_real(c) for c in calls]
         model_merged = [combo_canon_model(c) for c in m["merged"]]
+        chk.case("documents:kwargs-to-openapi_cases", key=key, nontrivial=bool(impl_merged) and bool(user))
         if len(impl_merged) != len(model_merged) or not all(same(a, b) for a, b in zip(impl_merged, model_merged)):
             chk.disagreement("documents:kwargs-to-openapi_cases", {"doc": doc, "op": op.label, "user": user},
                              model_merged, impl_merged)
